@@ -416,7 +416,7 @@ NOT_APPLICABLE = {}
 # running (a refused helper, a renamed counter) makes the check inconclusive instead of leaving a quiet gap
 _EXTRA_FLOORS = {
     "C01": {"optyping:typed-filter:accepted": 3500, "optyping:match-coverage:accepted": 75, "optyping:loop-value:accepted": 50, "optyping:union-call:accepted": 300, "unreachable-code:accepted": 700},
-    "C02": {"optyping:typed-filter:accepted": 3500, "optyping:match-coverage:accepted": 75, "optyping:union-call:accepted": 300, "unreachable-code:accepted": 700},
+    "C02": {"optyping:typed-filter:accepted": 3500, "optyping:match-coverage:accepted": 75, "optyping:union-call:accepted": 300, "unreachable-code:accepted": 700, "stdlib-sweep-calls": 10000},
     "C03": {"first-use-in-fresh-process:ok": 100, "unreachable-code:accepted": 900, "union-call:accepted": 300, "special-constants:accepted": 12000},
     "C04": {"identity-twin-templates": 24},
     "C05": {"probes-after-unrelated-work": 450},
